@@ -258,7 +258,7 @@ def make_error_model(lw, rng, allow_loss=True):
             if kind == "tophat":
                 return d.TopHat(0.0, 0.1)
             if kind == "gauss":
-                return d.Gaussian(0.05, 0.02)
+                return d.Gaussian(0.05, 0.02, 0.0)        # (one-sided: a loss must not come out negative)
             return d.Gaussian(0.05, 0.05, 0.0, 1.0)
         first = mk()
         second = first if rng.random() < 0.25 else mk()
@@ -397,6 +397,8 @@ def run(ctx):
                 # identically configured model gives
                 d_ = itf.dists
                 attr = str(rng.choice(["phase_offset", "phase_offset", "bs_reflectivity", "loss"]))
+                if attr == "loss" and n > 13:
+                    attr = "phase_offset"          # (no loss on wide meshes, see make_error_model)
                 mk = {"phase_offset": lambda: d_.Gaussian(0.0, 0.4) if rng.random() < 0.5 else d_.TopHat(-0.3, 0.3),
                       "bs_reflectivity": lambda: d_.Gaussian(0.5, 0.05, 0.0, 1.0) if rng.random() < 0.5 else d_.TopHat(0.4, 0.6),
                       "loss": lambda: d_.Gaussian(0.05, 0.02, 0.0, 1.0) if rng.random() < 0.5 else d_.TopHat(0.0, 0.1)}[attr]
